@@ -13,7 +13,11 @@ pub struct ScriptRng {
 pub const OUT_OF_DRAWS: &str = "OUT-OF-DRAWS";
 impl rand_core::RngCore for ScriptRng {
     fn next_u32(&mut self) -> u32 {
-        match self.draws.pop_front() {
+        if let Some(v) = self.draws.pop_front() {
+            return v;
+        }
+        // nb_device keeps its RNG private: its draws are passed through a thread-local
+        match crate::nbdev::NB_DRAWS.with(|x| x.borrow_mut().pop_front()) {
             Some(v) => v,
             None => std::panic::panic_any(OUT_OF_DRAWS),
         }
@@ -209,6 +213,24 @@ pub fn run_history(line: &str) -> String {
                     }
                 }
             }
+            "patch" => {
+                // patch up=<n> down=<n|none> adrcnt=<n> : rewrite counters of the session through its serialized form
+                match h.session() {
+                    None => "nosession".into(),
+                    Some(sess) => {
+                        let mut v: serde_json::Value = serde_json::to_value(sess).unwrap();
+                        for kv in &a[1..] {
+                            let (k, val) = kv.split_once('=').unwrap();
+                            let key = match k { "up" => "fcnt_up", "down" => "fcnt_down", _ => "adr_ack_cnt" };
+                            v[key] = if val == "none" { serde_json::Value::Null } else { serde_json::json!(int::<u64>(val)) };
+                        }
+                        match serde_json::from_value::<lorawan_device::mac::Session>(v) {
+                            Ok(s2) => { h.set_session(s2); "patched".into() }
+                            Err(e) => format!("deser-error {e}"),
+                        }
+                    }
+                }
+            }
             _ => "BADOP".into(),
         }));
         match res {
@@ -224,4 +246,23 @@ pub fn run_history(line: &str) -> String {
         }
     }
     out.join(" ; ")
+}
+
+
+/// nfd <last|none> <wire> ; nfd_sweep <last>: digest over all 65536 wire values
+pub fn nfd(op: &str, a: &[&str]) -> String {
+    use lorawan_device::mac::verif::next_fcnt_down;
+    let last = if a[0] == "none" { None } else { Some(int::<u32>(a[0])) };
+    if op == "nfd" {
+        return match next_fcnt_down(last, int::<u16>(a[1])) { Some(n) => n.to_string(), None => "none".into() };
+    }
+    let mut h = 0u64;
+    let mut accepted = 0u32;
+    for w in 0..=u16::MAX {
+        match next_fcnt_down(last, w) {
+            Some(n) => { accepted += 1; h = dg_step(h, n as i64); }
+            None => { h = dg_step(h, -1); }
+        }
+    }
+    format!("{h} {accepted}")
 }
